@@ -176,30 +176,61 @@ func (e *c17Env) materialize(c c17Case) (*c17Mat, error) {
 		candidates = ids
 		degraded = "no bug carries a label"
 	}
+	// The very short prefixes are taken from the bugs whose first id character is the most common one, so that
+	// the class means the same in every repository: a prefix shared by as many bugs as possible.
+	crowded := false
+	for _, cl := range c.Fields {
+		switch cl {
+		case "P_1HEX", "P_2HEX", "T_1HEX", "T_2HEX", "T_4HEX":
+			crowded = true
+		}
+	}
+	if crowded {
+		count := map[byte]int{}
+		for _, id := range ids {
+			count[id[0]]++
+		}
+		var best byte
+		for _, id := range ids { // ids are sorted: ties go to the smallest character
+			if count[id[0]] > count[best] {
+				best = id[0]
+			}
+		}
+		var crowd []string
+		for _, id := range candidates {
+			if id[0] == best {
+				crowd = append(crowd, id)
+			}
+		}
+		if len(crowd) > 0 {
+			candidates = crowd
+		}
+	}
 	target := candidates[rng.Intn(len(candidates))]
 	var curLabels []string
 	curTitle := ""
 	type cm struct{ combined, op string }
 	var comments []cm
 	var allCombined []string
+	commentsOf := map[string][]cm{}
 	for _, id := range ids {
-		bc, err := e.h.RC.Bugs().Resolve(entity.Id(id))
+		// read from the git data: building the request must not make the cache load anything
+		bi, err := e.bugInfo(id)
 		if err != nil {
 			continue
 		}
-		snap := bc.Snapshot()
-		for _, cmt := range snap.Comments {
-			allCombined = append(allCombined, cmt.CombinedId().String())
-			if id == target {
-				comments = append(comments, cm{cmt.CombinedId().String(), cmt.TargetId().String()})
-			}
+		for _, cmt := range bi.Comments {
+			allCombined = append(allCombined, cmt[0])
+			commentsOf[id] = append(commentsOf[id], cm{cmt[0], cmt[1]})
 		}
 		if id == target {
-			curTitle = snap.Title
-			for _, l := range snap.Labels {
-				curLabels = append(curLabels, string(l))
-			}
+			comments = commentsOf[id]
+			curTitle = bi.Title
+			curLabels = append(curLabels, bi.Labels...)
 		}
+	}
+	if len(comments) == 0 {
+		return nil, fmt.Errorf("bug %s cannot be read from git", target)
 	}
 	m.Exp.LabelsBefore = curLabels
 	m.Exp.Was = curTitle
@@ -222,8 +253,95 @@ func (e *c17Env) materialize(c c17Case) (*c17Mat, error) {
 	}
 	usesTarget := false
 
+	// a degenerate bug prefix: how many bugs it designates decides what the request is
+	shortBug := func(p, what string) string {
+		n := 0
+		for _, id := range ids {
+			if strings.HasPrefix(id, p) {
+				n++
+			}
+		}
+		switch {
+		case n == 0:
+			mark("invalid", what+" matching no bug")
+		case n == 1:
+			usesTarget = true
+			mark("either", what+" that happens to designate one bug")
+		default:
+			mark("invalid", what+" matching several bugs")
+		}
+		return p
+	}
+	// the same for a prefix of a combined bug/comment id
+	shortComment := func(p, what string) string {
+		n := 0
+		for _, cid := range allCombined {
+			if strings.HasPrefix(cid, p) {
+				n++
+			}
+		}
+		switch {
+		case n == 0:
+			mark("invalid", what+" matching no comment")
+		case n == 1:
+			mark("either", what+" that happens to designate one comment")
+		default:
+			mark("invalid", what+" matching several comments")
+		}
+		return p
+	}
+	anyComment := func() string { return comments[rng.Intn(len(comments))].combined }
+
 	leafValue := func(l c17Leaf, cl string) any {
 		switch cl {
+		// degenerate bug prefixes
+		case "P_1HEX":
+			return shortBug(target[:1], "one-character bug prefix")
+		case "P_2HEX":
+			return shortBug(target[:2], "two-character bug prefix")
+		case "P_LONG":
+			mark("invalid", "over-long bug prefix (a full id plus more characters)")
+			return target + "0123abcd"
+		case "P_HUGE":
+			mark("invalid", "huge bug prefix")
+			return strings.Repeat(target, 2000)
+		case "P_NONHEX":
+			mark("invalid", "bug prefix that is not hexadecimal")
+			return "zz-not-hex"
+		case "P_SPACE":
+			mark("invalid", "blank bug prefix")
+			return " "
+		// degenerate comment prefixes (combined ids interleave the characters of the bug id and of the comment id)
+		case "T_1HEX":
+			return shortComment(anyComment()[:1], "one-character comment prefix")
+		case "T_2HEX":
+			return shortComment(anyComment()[:2], "two-character comment prefix")
+		case "T_4HEX":
+			return shortComment(anyComment()[:4], "four-character comment prefix")
+		case "T_AMBIG":
+			// the bug part of the prefix is shared by several bugs, the comment part (2 characters) is genuine
+			for _, id := range ids {
+				if strings.HasPrefix(id, e.ambig) && len(commentsOf[id]) > 0 {
+					n := 2*len(e.ambig) - 1
+					if len(e.ambig) > 3 {
+						n = 5
+					}
+					return shortComment(commentsOf[id][0].combined[:n], "comment prefix whose bug part is ambiguous")
+				}
+			}
+			return shortComment(anyComment()[:1], "one-character comment prefix")
+		case "T_LONG":
+			mark("invalid", "over-long comment prefix (a full combined id plus more characters)")
+			return anyComment() + "0123abcd"
+		case "T_HUGE":
+			mark("invalid", "huge comment prefix")
+			return strings.Repeat(anyComment(), 2000)
+		case "T_NONHEX":
+			mark("invalid", "comment prefix that is not hexadecimal")
+			return "zz-not-hex"
+		case "T_SPACE":
+			mark("invalid", "blank comment prefix")
+			return " "
 		// bug prefix
 		case "P_FULL":
 			usesTarget = true
